@@ -10,11 +10,13 @@ let () =
     | "c20" -> C20.model_line, Some C20.judge_line
     | "c20x" -> Xpc20.model_line, Some Xpc20.judge_line
     | "optstr" -> C20.optstr_line, None
+    | "ends" -> Ends.model_line, Some Ends.judge_line
     | "c12" -> C12.model_line, Some C12.judge_line
     | "c11" -> C11.model_line, Some C11.judge_line
     | "unicode" -> C11.unicode_line, None
     | "c16" -> C16.model_line, Some C16.judge_line
     | "qword" -> C15.model_line, None
+    | "rword" -> C15.rword_line, None
     | "hdoc" -> C15.hdoc_line, None
     | "gap" -> Gap.model_line, None
     | "hdp" -> Hdp.model_line, Some Hdp.judge_line
